@@ -257,6 +257,82 @@ def repeated(rng, tier):
         yield 'vmdk', length(), B(hdr(footer) + b'\0' * 448), [], 'rep:vmdk.headers%s' % ('+footer' if footer else '')
     yield 'vmdk', length(), B(dsec), [], 'rep:vmdk.text-descriptor'
 
+# ------------------------------------------------------------------ header-field sweep for the other formats: every header field the code
+# (or a plausible edit) could use as an offset / length — singly, in (offset, length) pairs and all at once — tail >= 1 MiB, 512 / 4096 /
+# 65536-byte chunks (a region created by a callback only sees LATER chunks, so small chunks matter here)
+HDR_FIELDS = {    # fmt -> (base offset, big-endian?, [(name, offset, width)])
+    'qcow2': (0, True, [('version', 4, 4), ('backing_file_offset', 8, 8), ('backing_file_size', 16, 4), ('cluster_bits', 20, 4), ('size', 24, 8),
+                        ('crypt_method', 32, 4), ('l1_size', 36, 4), ('l1_table_offset', 40, 8), ('refcount_table_offset', 48, 8),
+                        ('refcount_table_clusters', 56, 4), ('nb_snapshots', 60, 4), ('snapshots_offset', 64, 8), ('incompatible_features', 72, 8),
+                        ('compatible_features', 80, 8), ('autoclear_features', 88, 8), ('refcount_order', 96, 4), ('header_length', 100, 4),
+                        ('ext.type', 104, 4), ('ext.length', 108, 4)]),
+    'qed': (0, False, [('cluster_size', 4, 4), ('table_size', 8, 4), ('header_size', 12, 4), ('features', 16, 8), ('compat_features', 24, 8),
+                       ('autoclear_features', 32, 8), ('l1_table_offset', 40, 8), ('image_size', 48, 8), ('backing_filename_offset', 56, 4),
+                       ('backing_filename_size', 60, 4)]),
+    'vdi': (0, False, [('version', 0x44, 4), ('header_size', 0x48, 4), ('image_type', 0x4c, 4), ('flags', 0x50, 4), ('offset_blocks', 0x154, 4),
+                       ('offset_data', 0x158, 4), ('sector_size', 0x168, 4), ('disk_size', 0x170, 8), ('block_size', 0x178, 4),
+                       ('block_extra', 0x17c, 4), ('blocks_in_hdd', 0x180, 4), ('blocks_allocated', 0x184, 4)]),
+    'vhd': (0, True, [('features', 8, 4), ('version', 12, 4), ('data_offset', 16, 8), ('timestamp', 24, 4), ('original_size', 40, 8),
+                      ('current_size', 48, 8), ('geometry', 56, 4), ('disk_type', 60, 4), ('checksum', 64, 4)]),
+    'luks': (0, True, [('version', 6, 2), ('payload_offset', 104, 4), ('key_bytes', 108, 4), ('mk_digest_iter', 164, 4), ('slot0.active', 208, 4),
+                       ('slot0.iterations', 212, 4), ('slot0.key_material_offset', 248, 4), ('slot0.stripes', 252, 4),
+                       ('slot7.key_material_offset', 208 + 48 * 7 + 40, 4), ('slot7.stripes', 208 + 48 * 7 + 44, 4)]),
+    'gpt': (0, False, [('bytes_per_sector', 0x0b, 2), ('fat_num', 0x10, 1), ('media', 0x15, 1), ('pte0.boot', 446, 1), ('pte0.ostype', 450, 1),
+                       ('pte0.lba', 454, 4), ('pte0.size', 458, 4), ('pte1.lba', 470, 4), ('pte1.size', 474, 4), ('pte3.lba', 502, 4),
+                       ('pte3.size', 506, 4), ('signature', 510, 2)]),
+    'iso': (32 * KI, False, [('type', 0, 1), ('volume_space_size', 80, 4), ('logical_block_size', 128, 2), ('path_table_size', 132, 4),
+                             ('path_table_loc', 140, 4), ('root.extent', 158, 4), ('root.length', 166, 4), ('volume_set_size', 120, 2)]),
+}
+OFFSETS = [512, 513, 4096, 65536, 100000, MI]           # just past the header ... inside the tail
+def hdr_values(w, rng, tier):
+    vals = [0, 1, 511, 512, 513, 4096, 65536, 2**31, 2**32 - 1] + ([2**32, 2**63, 2**64 - 1] if w == 8 else [])
+    vals = [v for v in vals if v < 256**w]
+    return vals if tier != 'quick' else rng.sample(vals, 1)
+
+def header_sweep(rng, tier):
+    """-> (fmt, n, bg, patches, label, chunk size)"""
+    big = tier != 'quick'
+    k = rng.randrange(3)
+    CH = [512, 4096, 65536]
+    for fmt, (base, be, fields) in HDR_FIELDS.items():
+        order = 'big' if be else 'little'
+        n0, p0, _b = c01.BUILD[fmt](rng)
+        n = max(n0, base + 2048) + (3 * MI if big else MI) + 4096 + 3
+        enc = lambda name, v: P(base + dict((f[0], f[1]) for f in fields)[name], (v % 256**dict((f[0], f[2]) for f in fields)[name]).to_bytes(dict((f[0], f[2]) for f in fields)[name], order))
+        bgs = lambda: rng.choice(['z', 'f', 'a'])
+        # one field at a time
+        for name, off, w in fields:
+            for v in hdr_values(w, rng, tier):
+                yield fmt, n, bgs(), p0 + [enc(name, v)], 'hdr:%s.%s' % (fmt, name), CH[k % 3]; k += 1
+        # all at once: every 8-byte (or, second round, every) field an offset just past the header chunk, every other field a huge length
+        for O in ([512, 4096, 65536, MI] if big else [4096, 65536]):
+            for L in ([2**32 - 1, 2**31, MI] if big else [2**32 - 1]):
+                for keep in ((('version',), ()) if big else (rng.choice([('version',), ()]),)):
+                    p = [enc(nm, O if w == 8 else L) for nm, _o, w in fields if nm not in keep]
+                    yield fmt, n, bgs(), p0 + p, 'hdr:%s.all' % fmt, CH[k % 2]; k += 1
+                    p = [enc(nm, O if i % 2 == 0 else L) for i, (nm, _o, w) in enumerate(f for f in fields if f[0] not in keep)]
+                    yield fmt, n, bgs(), p0 + p, 'hdr:%s.alt' % fmt, CH[k % 2]; k += 1
+        # (offset field, length field) pairs
+        pairs = [(a, b) for a in fields for b in fields if a[0] != b[0] and a[0] != 'version' and b[0] != 'version']
+        for a, b in (pairs if big else rng.sample(pairs, min(5, len(pairs)))):
+            O = rng.choice([o for o in OFFSETS if o < 256**a[2]] or [255]); L = rng.choice([256**b[2] - 1, 2**(8 * b[2] - 1), MI % 256**b[2]])
+            yield fmt, n, bgs(), p0 + [enc(a[0], O), enc(b[0], L)], 'hdr:%s.pair' % fmt, CH[k % 2]; k += 1
+    # adjacent (offset, length) pairs of qcow2 / qed explicitly, every offset x every chunk size
+    for fmt, a, b in [('qcow2', 'backing_file_offset', 'backing_file_size'), ('qed', 'backing_filename_offset', 'backing_filename_size'),
+                      ('qcow2', 'snapshots_offset', 'nb_snapshots'), ('qcow2', 'l1_table_offset', 'l1_size'),
+                      ('qcow2', 'refcount_table_offset', 'refcount_table_clusters'), ('vdi', 'offset_blocks', 'blocks_in_hdd'),
+                      ('luks', 'slot0.key_material_offset', 'slot0.stripes'), ('vhd', 'data_offset', 'current_size')]:
+        base, be, fields = HDR_FIELDS[fmt]; order = 'big' if be else 'little'
+        fo = dict((f[0], f) for f in fields)
+        n0, p0, _b = c01.BUILD[fmt](rng)
+        n = n0 + (3 * MI if big else MI) + 4096 + 3
+        for O in ([512, 4096, 65536] if not big else OFFSETS):
+            for cs in CH:
+                if cs > O and not big: continue
+                L = 256**fo[b][2] - 1
+                yield fmt, n, rng.choice(['z', 'f', 'a']), p0 + [P(base + fo[a][1], O.to_bytes(fo[a][2], order)), P(base + fo[b][1], L.to_bytes(fo[b][2], order))], \
+                    'hdr:%s.%s+%s' % (fmt, a, b), cs
+
 def big_chunkings(rng, n, tier):
     """few large chunks (the list model is quadratic in the number of chunks per region)"""
     out = [[n]]
@@ -292,6 +368,11 @@ def gen_cases(rng, tier):
         for sizes in ch:
             cont, fin = modes(rng, len(sizes) + 1)
             yield {'op': 'mem', 'fmt': fmt, 'n': n, 'bg': bg, 'p': p, 'sizes': sizes, 'cont': cont, 'fin': fin, 'k': lab}
+    # 1c. header fields of the other formats
+    for fmt, n, bg, p, lab, cs in header_sweep(rng, tier):
+        sizes = [cs] * (n // cs)
+        cont, fin = modes(rng, len(sizes) + 1)
+        yield {'op': 'mem', 'fmt': fmt, 'n': n, 'bg': bg, 'p': p, 'sizes': sizes, 'cont': cont, 'fin': fin, 'k': lab}
     # 1b. the field sweep
     for fmt, n, bg, p, lab, kind in field_sweep(rng, tier):
         kinds = [kind] if tier == 'quick' else [0, 1, 2 + kind % 2]
@@ -315,7 +396,7 @@ def gen_cases(rng, tier):
                 cont, fin = modes(rng, len(sizes) + 1)
                 yield {'op': 'mem', 'fmt': fmt, 'hostile': [seed, tier, idx], 'sizes': sizes, 'cont': cont, 'fin': fin, 'k': 'imgbuild'}
     # 3. the C01 generators (structured mostly-valid images, truncations, mutations, polyglots; small streams, fine chunkings)
-    per = {'quick': 25, 'thorough': 600}[tier]
+    per = {'quick': 16, 'thorough': 600}[tier]
     for fmt in FORMATS:
         bigf = fmt == 'vhdx'
         for _ in range(per // 3 if bigf else per):
@@ -391,6 +472,9 @@ def search(rng, budget):
             for sizes in big_chunkings(rng, ln, 'quick')[:2]:
                 n += 1
                 yield {'op': 'mem', 'fmt': fmt, 'n': ln, 'bg': bg, 'p': p, 'sizes': sizes, 'cont': 0, 'fin': len(sizes) + 2, 'k': 'search:' + lab}
+        for fmt, ln, bg, p, lab, cs in header_sweep(rng, 'quick'):
+            n += 1
+            yield {'op': 'mem', 'fmt': fmt, 'n': ln, 'bg': bg, 'p': p, 'sizes': [cs] * (ln // cs), 'cont': 0, 'fin': ln, 'k': 'search:' + lab}
         for fmt, ln, bg, p, lab in repeated(rng, 'thorough'):
             n += 1
             yield {'op': 'mem', 'fmt': fmt, 'n': ln, 'bg': bg, 'p': p, 'sizes': [ln], 'cont': 0, 'fin': 3, 'k': 'search:' + lab}
@@ -400,7 +484,7 @@ def search(rng, budget):
                 sizes = sweep_chunking(rng, ln, kd, 'thorough')
                 yield {'op': 'mem', 'fmt': fmt, 'n': ln, 'bg': bg, 'p': p, 'sizes': sizes, 'cont': 0, 'fin': len(sizes) + 2, 'k': 'search:' + lab}
 
-RULE = ('repeated structures: 0.6-3 MiB streams in which every sector/stride carries a valid-looking instance of what the inspector parses there (ISO volume descriptors of every identifier/type in every 2 KiB sector; a valid qcow2/qed/vhd/vdi/gpt/luks header in every sector; VHDX region/metadata entries repeated beyond the declared counts, table headers every 64 KiB; VMDK descriptor / extent-line / marker / footer-triple / header sectors); field sweep: every field of every structure the VHDX and VMDK inspectors parse, ignored ones included (region-table checksum/count/reserved, entry offset/length/required, metadata reserved words/count, item offset/length/flags/reserved, size; every SparseExtentHeader field) one at a time over {0,1,2^16-1,2^16,2^31,2^32-1,2^32,2^63,2^64-1, other fields +-1} + contradictory length pairs, tail >= 1 MiB, as one chunk / 1 MiB chunks / 64 KiB chunks; hostile family ( (VMDK descriptor sector counts 2047..2^64-1 with/without footer flag, bad descriptor sector, text-descriptor mode; '
+RULE = ('header-field sweep of qcow2/qed/vdi/vhd/luks/gpt/iso (every field singly over {0,1,511..513,4096,65536,2^31,2^32-1,2^63,2^64-1}, all fields at once as offsets just past the header + huge lengths, (offset,length) pairs incl. backing_file_offset/size), tail >= 1 MiB, 512/4096/65536-byte chunks; repeated structures: 0.6-3 MiB streams in which every sector/stride carries a valid-looking instance of what the inspector parses there (ISO volume descriptors of every identifier/type in every 2 KiB sector; a valid qcow2/qed/vhd/vdi/gpt/luks header in every sector; VHDX region/metadata entries repeated beyond the declared counts, table headers every 64 KiB; VMDK descriptor / extent-line / marker / footer-triple / header sectors); field sweep: every field of every structure the VHDX and VMDK inspectors parse, ignored ones included (region-table checksum/count/reserved, entry offset/length/required, metadata reserved words/count, item offset/length/flags/reserved, size; every SparseExtentHeader field) one at a time over {0,1,2^16-1,2^16,2^31,2^32-1,2^32,2^63,2^64-1, other fields +-1} + contradictory length pairs, tail >= 1 MiB, as one chunk / 1 MiB chunks / 64 KiB chunks; hostile family ( (VMDK descriptor sector counts 2047..2^64-1 with/without footer flag, bad descriptor sector, text-descriptor mode; '
         'VHDX item lengths up to 2^32-1, table counts 2047/2048/65535/2^32-1, announced metadata length 2^32-1, missing size item, 2047 metadata '
         'entries; every format on 3-6 MiB text/random/zero/0xff/one-line streams and on its valid image + long tail) x (one giant chunk, 64 KiB..2 MiB '
         'chunks, random cuts with empty chunks); tools/imgbuild.hostile_images; the C01 structured generators with fine chunkings; x call protocols '
